@@ -250,7 +250,11 @@ def pool_lines(rng, n_seq):
             return self
 
     orig_process = commands.Process
+    orig_till = commands.Till
     commands.Process = StubProcess
+    # the stub shells answer at once; the start-up timer must not depend on whether this worker process still runs a timer
+    # daemon (an earlier scheduled job stops it, and `Till()` of a disabled daemon is DONE: "did not start within 60 seconds")
+    commands.Till = lambda seconds=None, till=None: Signal("never")
     try:
         for _ in range(n_seq):
             StubProcess.counter[0] = 0
@@ -284,12 +288,19 @@ def pool_lines(rng, n_seq):
                 viol.append("C18: shells handed out %s differ from the manager's inuse list after %s" % (sorted(p.pid_ for p in held), ops))
     finally:
         commands.Process = orig_process
+        commands.Till = orig_till
     return lines, viol
 
 
 def run_all(seed, n_pf, n_cmds, n_threads, n_pool, with_findings):
     rng = random.Random(seed)
     t0 = time.time()
+    # a worker process runs several of these jobs, and each ends by stopping mo_threads' main thread and timer daemon:
+    # without a running daemon `Till(seconds=60)` is DONE and every shell "did not start within 60 seconds"
+    import mo_threads
+    from mo_threads import till as _till
+    if not bool(getattr(_till, "enabled", None)):
+        mo_threads.start_main_thread()
     l1, v1, s1 = pf_lines(rng, n_pf)
     l3, v3 = pool_lines(rng, n_pool)
     l2, v2, known, s2 = real_commands(rng, n_cmds, n_threads, with_findings)
